@@ -300,7 +300,7 @@ type bestDoc struct {
 	control.BestChecksums
 }
 
-var c12RecKinds = []string{"equal", "equal-uppercase", "nibble-off", "truncated", "other-algorithm", "not-hex", "odd-length"}
+var c12RecKinds = []string{"equal", "equal-uppercase", "nibble-off", "truncated", "other-algorithm", "not-hex", "odd-length", "extended"}
 
 func genC12Entries(t *rt.Tape, field, alg string, n int) []c12Entry {
 	var out []c12Entry
@@ -308,7 +308,7 @@ func genC12Entries(t *rt.Tape, field, alg string, n int) []c12Entry {
 		e := c12Entry{Field: field, Alg: alg, Name: fmt.Sprintf("%s_%d.tar.gz", genFrom(t, lowerAlnum, 1, 6, "c12.fname"), i)}
 		e.Content = t.Sub("c12.content").Bytes(t.Range(0, 300, "c12.clen"))
 		truth := hex.EncodeToString(trueDigest(alg, e.Content))
-		e.Kind = c12RecKinds[t.Weighted([]int{6, 1, 3, 1, 2, 1, 1}, "c12.reckind")]
+		e.Kind = c12RecKinds[t.Weighted([]int{6, 1, 3, 2, 2, 1, 1, 2}, "c12.reckind")]
 		e.HexOK = true
 		switch e.Kind {
 		case "equal":
@@ -324,7 +324,11 @@ func genC12Entries(t *rt.Tape, field, alg string, n int) []c12Entry {
 			}
 			e.Recorded = truth[:p] + string(nc) + truth[p+1:]
 		case "truncated":
-			e.Recorded = truth[:len(truth)/2]
+			// any shorter even number of digits, down to two
+			e.Recorded = truth[:2*(1+t.Draw(len(truth)/2-1, "c12.trunc"))]
+		case "extended":
+			// the true digest followed by further digits is not the digest
+			e.Recorded = truth + hex.EncodeToString(t.Sub("c12.extra").Bytes(1+t.Draw(32, "c12.nextra")))
 		case "other-algorithm":
 			other := "sha512"
 			if alg == "sha512" {
@@ -502,7 +506,65 @@ func c12Verifier(r *rt.Run) {
 	}
 }
 
+// c12Direct uses a Hasher itself as the io.Writer of io.Copy (the source has no
+// WriteTo, so io.Copy takes the Hasher's ReadFrom when it has one, its Write
+// otherwise).  The source may fail once, transiently, after which the caller
+// resumes the copy on the same Hasher: length and digest are those of all bytes
+// that went in.
+func c12Direct(r *rt.Run) {
+	t := r.T
+	c12Kept = nil
+	data := genData(t, "c12.data")
+	alg := c12Algs[t.Draw(4, "c12.alg")]
+	h, err := hashio.NewHasher(alg)
+	if err != nil {
+		r.Violate("C12/constructor-error", "direct", "%v", err)
+		return
+	}
+	src := simio.NewReader(r, "source", data)
+	transient := len(data) > 0 && t.Bool(1, 2, "config.faulty")
+	if transient {
+		src.FailOnceAt(t.Draw(len(data)+1, "faultpos"))
+	}
+	r.Event("workload", "direct", fmt.Sprintf("len=%d alg=%s transient=%v", len(data), alg, transient))
+	var total int64
+	var lastErr error
+	task := r.Solo("copier", func() {
+		for attempt := 0; attempt < 3; attempt++ {
+			n, e := io.Copy(h, onlyReader{src})
+			total += n
+			lastErr = e
+			if e == nil {
+				return
+			}
+			r.Probe("copy-into-hasher-interrupted-and-resumed")
+			if h.Size() != int64(src.Pos()) {
+				r.Violate("C12/size-mismatch", "direct/after-interrupted-copy", "Size()=%d after %d bytes went into the hasher (copy interrupted by %v)", h.Size(), src.Pos(), e)
+			}
+		}
+	})
+	if taskTrouble(r, "C12", "direct", task) {
+		return
+	}
+	if lastErr != nil {
+		r.Violate("C12/read-error", "direct", "copy did not finish after the transient fault: %v", lastErr)
+		return
+	}
+	if total != int64(len(data)) {
+		r.Violate("C12/bytes-altered", "direct", "io.Copy into the hasher reported %d bytes of %d", total, len(data))
+	}
+	checkHashers(r, "direct", []string{alg}, []*hashio.Hasher{h}, data)
+}
+
+// onlyReader hides every method but Read.
+type onlyReader struct{ io.Reader }
+
 func runC12(r *rt.Run, tier string) {
+	if r.T.Bool(1, 8, "c12.direct") {
+		r.Stats["part.direct"]++
+		c12Direct(r)
+		return
+	}
 	if r.T.Bool(2, 5, "c12.part") {
 		r.Stats["part.verifier"]++
 		c12Verifier(r)
@@ -515,7 +577,7 @@ func runC12(r *rt.Run, tier string) {
 func init() {
 	register(&Prop{
 		ID: "C12", Level: "exploration", Variant: "N", Design: "DESIGN.md §5 C12",
-		Rule:      "Stream part: a byte string (0..70 KB), an algorithm list (1..5 of md5/sha1/sha256/sha512, any order, repeats), direction (hashing writer(s) or reader(s)), the caller's chunk/buffer sizes, the simulated source's delivery schedule incl. (n,EOF) and zero reads, and optionally one fault (short write/ENOSPC/EIO of the sink, EIO of the source); size and digests are compared with crypto/* after every step for small inputs. Verifier part: Checksums-Sha256/-Sha512 fields with recorded hashes that are equal, upper-case, one nibble off, truncated, of the other algorithm, not hex or odd-length are parsed through control.Unmarshal over a simulated stream into typed slices and BestChecksums, and entries are built with FileHashFromHasher; each content is streamed through Verifier() in tape-chosen chunks.",
+		Rule:      "Stream part: a byte string (0..70 KB), an algorithm list (1..5 of md5/sha1/sha256/sha512, any order, repeats), direction (hashing writer(s) or reader(s)), the caller's chunk/buffer sizes, the simulated source's delivery schedule incl. (n,EOF) and zero reads, and optionally one fault (short write/ENOSPC/EIO of the sink, EIO of the source); size and digests are compared with crypto/* after every step for small inputs. Direct part: io.Copy straight into a Hasher from a source that fails once and is resumed. Verifier part: Checksums-Sha256/-Sha512 fields with recorded hashes that are equal, upper-case, one nibble off, truncated to any shorter length, extended by further digits, of the other algorithm, not hex or odd-length are parsed through control.Unmarshal over a simulated stream into typed slices and BestChecksums, and entries are built with FileHashFromHasher; each content is streamed through Verifier() in tape-chosen chunks.",
 		Run:       runC12,
 		QuickRuns: 150000, QuickSecs: 30, ThoroughRuns: 5_000_000, ThoroughSecs: 900,
 		Components: map[string]interface{}{
@@ -524,5 +586,5 @@ func init() {
 		},
 		Assumptions: []string{"crypto/md5, sha1, sha256, sha512 of the Go standard library are the reference digests", "Verifier() on md5/sha1 entries calls log.Fatalf by design and is not exercised (the statement restricts itself to Sha256/Sha512 fields)"},
 	})
-	propProbes["C12"] = []string{"zero-length-write", "data-and-eof-in-one-read", "best-selected-sha512"}
+	propProbes["C12"] = []string{"copy-into-hasher-interrupted-and-resumed", "zero-length-write", "data-and-eof-in-one-read", "best-selected-sha512"}
 }
